@@ -922,7 +922,7 @@ func runC03(c *Ctx) {
 		}
 	}
 	ptexts := parseTexts()
-	parsing := map[string]bool{"fromjson": true, "tonumber": true, "toboolean": true, "_tobase64d": true, "_tourid": true, "tojson": true, "_tobase64": true, "_touri": true}
+	parsing := map[string]bool{"fromjson": true, "tonumber": true, "toboolean": true, "_tobase64d": true, "_tourid": true}
 	c.Stats["parse_texts"] = len(ptexts)
 	small = append(small, nil, 0, 1, -1, 2, 1.5, lit("1.5"), lit("1"), "a", arr(1), obj("a", 1), math.NaN(), bigs("9223372036854775808"), -1.5, 3, math.Inf(1), true)
 	for _, name := range names {
